@@ -846,6 +846,107 @@ def SpSys.allEnded {σ : Type} (sp : Spawn) (s : SpSys σ) : Bool :=
   (List.range s.sys.pcs.length).all fun t =>
     (match s.sys.pcs[t]? with | some p => p.settled | none => true) || !(s.live sp t)
 
+/-! ### time
+
+The awaits inside an `edit_state` body take time: `dur t k` is the number of seconds that the await
+which ends chunk `k` of the body of task `t` takes (a slow call inside the block; `0`: a bare yield).
+`TSys` adds a clock to `SpSys`; the scheduler has one more action, `tick d` (`d` seconds pass).  A
+task suspended at such an await cannot run before the await is over (a cancellation request wakes it
+at once, as `Task.cancel()` does); *nothing else* depends on the clock: the stores set no timers and
+a task queued on the store lock waits for as long as it takes
+(`GenStateStore.*TimerFree`, from the source: `patience = none`).
+
+`patience op = some p` describes a store that does not have this shape: an operation that has been
+queued on the lock for `p` seconds stops waiting and is carried out without the lock. -/
+
+abbrev Durs := Nat → Nat → Nat
+
+structure TSys (σ : Type) where
+  sp : SpSys σ
+  now : Nat := 0
+  /-- per task: when the await it is suspended at inside its `edit_state` body is over -/
+  wake : List Nat
+  /-- per task: when it queued on the store lock -/
+  since : List Nat
+
+def TSys.init {σ : Type} (st : σ) (n : Nat) : TSys σ :=
+  { sp := SpSys.init st n, wake := List.replicate n 0, since := List.replicate n 0 }
+
+/-- scheduler actions of the timed system -/
+inductive TAct where
+  | act (a : Act)
+  | tick (d : Nat)
+  deriving Repr, DecidableEq, Inhabited
+
+/-- the await (number) inside its `edit_state` body that task `t` is suspended at -/
+def awaitIx (prog : List COp) (pcs : List Pc) (t : Nat) : Option Nat :=
+  match prog[t]?, pcs[t]? with
+  | some (.edit cs), some (.body _ rest _) => some (cs.length - (rest.length + 1))
+  | _, _ => none
+
+/-- task `t` is suspended at an await of its body that is not over yet -/
+def TSys.asleep {σ : Type} (s : TSys σ) (t : Nat) : Bool :=
+  match s.sp.sys.pcs[t]? with
+  | some (.body _ _ _) => decide (s.now < s.wake.getD t 0)
+  | _ => false
+
+def isWaiting : Option Pc → Bool
+  | some .waiting => true
+  | _ => false
+
+/-- an operation queued on the lock since `since` has run out of patience: it is taken out of the
+FIFO and carried out on the spot, whoever holds the lock (one-section operations only) -/
+def TSys.giveUp {σ : Type} (B : Backend σ) (prog : List COp) (patience : COp → Option Nat) (s : TSys σ) (t : Nat) :
+    Option (TSys σ) :=
+  match prog[t]?, s.sp.sys.pcs[t]? with
+  | some (.edit _), _ => none
+  | some op, some .waiting =>
+    match patience op with
+    | some p =>
+      if s.since.getD t 0 + p ≤ s.now then
+        some { s with sp := { s.sp with sys := enter B { s.sp.sys with queue := s.sp.sys.queue.erase t } t op } }
+      else none
+    | none => none
+  | _, _ => none
+
+def TSys.exec {σ : Type} (B : Backend σ) (prog : List COp) (sp : Spawn) (dur : Durs) (patience : COp → Option Nat)
+    (s : TSys σ) : TAct → Option (TSys σ)
+  | .tick d => some { s with now := s.now + d }
+  | .act (.cancel t) =>
+    match SpSys.exec B prog sp s.sp (.cancel t) with
+    | some s' => some { s with sp := s' }
+    | none => none
+  | .act (.run t) =>
+    if s.asleep t then none
+    else
+      match SpSys.exec B prog sp s.sp (.run t) with
+      | some s' =>
+        some { s with
+          sp := s'
+          wake := match awaitIx prog s'.sys.pcs t with
+            | some k => s.wake.set t (s.now + dur t k)
+            | none => s.wake
+          since := if isWaiting s'.sys.pcs[t]? && !(isWaiting s.sp.sys.pcs[t]?) then s.since.set t s.now else s.since }
+      | none => TSys.giveUp B prog patience s t
+
+def TSys.execAll {σ : Type} (B : Backend σ) (prog : List COp) (sp : Spawn) (dur : Durs) (patience : COp → Option Nat) :
+    TSys σ → List TAct → Option (TSys σ)
+  | s, [] => some s
+  | s, a :: as => match TSys.exec B prog sp dur patience s a with
+    | some s' => TSys.execAll B prog sp dur patience s' as
+    | none => none
+
+/-- the schedule without its ticks -/
+def untimed : List TAct → List Act
+  | [] => []
+  | .act a :: as => a :: untimed as
+  | .tick _ :: as => untimed as
+
+/-- how long an operation queues on the store lock before it stops waiting, as found in the source:
+forever (the store modules use no timer) -/
+def memPatience : COp → Option Nat := fun _ => if GenStateStore.memTimerFree then none else some 0
+def sqlPatience : COp → Option Nat := fun _ => if GenStateStore.sqlTimerFree then none else some 0
+
 /-- `p` occurs before `c` in `l` -/
 def Before (l : List Nat) (p c : Nat) : Prop := ∃ l1 l2 l3, l = l1 ++ p :: l2 ++ c :: l3
 
